@@ -81,8 +81,9 @@ theorem vertex_branch_le {c : Cell} {t : V3} (X : Ctx c t) :
       · rw [h']; linarith
       · rw [h']; linarith
 
-/-- error of the lower bound -/
-noncomputable def lowErr (eE C : ℝ) : ℝ := max (eE + 30 * uR) (vertErr + 34 * C * uR)
+/-- error of the lower bound (`98 = 2·49`, `49·u ≥ m + 17·u`: the tolerance of a tangential "no" with the margin `m`
+    of repair D58; it was `2·17` before) -/
+noncomputable def lowErr (eE C : ℝ) : ℝ := max (eE + 30 * uR) (vertErr + 98 * C * uR)
 
 theorem max_le_small {s : ℝ} (h : s ≤ (102 / 100) * uR) : max s 0 ≤ (102 / 100) * uR :=
   max_le h (by have := uR_nonneg; linarith)
@@ -94,7 +95,7 @@ theorem distUVW_lower {eE C : ℝ} (HE : EdgeSpec eE) (HR : RobustCover C) {c : 
   have hu := uR_nonneg
   have hup := uR_pos
   have le1 : eE + 30 * uR ≤ lowErr eE C := le_max_left _ _
-  have le2 : vertErr + 34 * C * uR ≤ lowErr eE C := le_max_right _ _
+  have le2 : vertErr + 98 * C * uR ≤ lowErr eE C := le_max_right _ _
   unfold distUVW
   simp only
   by_cases cL : (F64.lt (dirs c t).dir00 fzero && vEdgeIsClosest c t false) = true
@@ -144,13 +145,13 @@ theorem distUVW_lower {eE C : ℝ} (HE : EdgeSpec eE) (HR : RobustCover C) {c : 
   -- the vertex branch
   obtain ⟨fr, hle⟩ := vertex_branch_le X
   refine ⟨fr, ?_⟩
-  have e17 : (102 / 100) * uR < 17 * uR := by linarith
+  have e17 : (102 / 100) * uR < 49 * uR := by linarith
   have hcov := HR (rectOf c) X.ok X.gu X.gv (ofV t) q hq bl
     (by have := X.bn; have : (1 : ℝ) + 1 / 2 ^ 21 ≤ 2 := by norm_num
         linarith)
-    (17 * uR) (by linarith)
+    (49 * uR) (by linarith)
     (by have := uR_small
-        have : (17 : ℝ) * (1 / 2 ^ 50) ≤ 1 / 2 ^ 40 := by norm_num
+        have : (49 : ℝ) * (1 / 2 ^ 50) ≤ 1 / 2 ^ 40 := by norm_num
         linarith)
     (F64.lt (dirs c t).dir00 fzero = true) (F64.gt (dirs c t).dir01 fzero = true)
     (F64.lt (dirs c t).dir10 fzero = true) (F64.gt (dirs c t).dir11 fzero = true)
@@ -192,7 +193,7 @@ theorem distUVW_lower {eE C : ℝ} (HE : EdgeSpec eE) (HR : RobustCover C) {c : 
       rfl)
   have hd : dist2 (ofV t) q = (ofV t).norm2 + 1 - 2 * R3.dot (ofV t) q := by rw [dist2_eq, hq.1]
   rw [hd]
-  have : 34 * C * uR = 2 * (C * (17 * uR)) := by ring
+  have : 98 * C * uR = 2 * (C * (49 * uR)) := by ring
   linarith
 
 end S2Proofs.C12Dist
